@@ -78,8 +78,8 @@ func (w *World) clusterAnchors() *clusterAnchors {
 		if len(w.callsIn(fn, evL)) > 0 {
 			a.leave = fn
 		}
-		for _, b := range fn.Blocks {
-			for _, in := range b.Instrs {
+		for _, in := range w.insOf(fn) {
+			{
 				switch x := in.(type) {
 				case *ssa.MapUpdate:
 					if strings.HasSuffix(w.pathOf(x.Map), "P0.activated") {
@@ -99,7 +99,7 @@ func (w *World) clusterAnchors() *clusterAnchors {
 	}
 	// handlers by dispatch from Receive
 	if a.recv != nil {
-		g := w.FG(a.recv)
+		g := w.FGI(a.recv)
 		for _, in := range g.ins {
 			c := callOf(in)
 			if c == nil || c.StaticCallee() == nil || len(c.Args) < 2 {
@@ -124,8 +124,8 @@ func (w *World) clusterAnchors() *clusterAnchors {
 		}
 	}
 	if a.leave != nil && false {
-		for _, b := range a.leave.Blocks {
-			for _, in := range b.Instrs {
+		for _, in := range w.insOf(a.leave) {
+			{
 				if c := callOf(in); c != nil && c.StaticCallee() != nil && isMethodOf(c.StaticCallee(), a.agentT) && len(c.Args) == 1 {
 					a.rebuild = c.StaticCallee()
 				}
@@ -141,8 +141,8 @@ func (w *World) clusterAnchors() *clusterAnchors {
 	}
 	if a.leave != nil {
 		// the rebuild helper: an Agent method called by the leave handler that clears kinds
-		for _, b := range a.leave.Blocks {
-			for _, in := range b.Instrs {
+		for _, in := range w.insOf(a.leave) {
+			{
 				if c := callOf(in); c != nil && c.StaticCallee() != nil && isMethodOf(c.StaticCallee(), a.agentT) {
 					for _, bb := range c.StaticCallee().Blocks {
 						for _, ii := range bb.Instrs {
@@ -217,8 +217,8 @@ func (w *World) mapWriters(pkg string, named *types.Named, field string) map[*ss
 		if !w.isLib(fn) || fnPkgPath(fn) != modPath+"/"+pkg {
 			continue
 		}
-		for _, b := range fn.Blocks {
-			for _, in := range b.Instrs {
+		for _, in := range w.insOf(fn) {
+			{
 				switch x := in.(type) {
 				case *ssa.MapUpdate:
 					if isF(x.Map) {
@@ -238,6 +238,37 @@ func (w *World) mapWriters(pkg string, named *types.Named, field string) map[*ss
 						}
 					}
 				}
+			}
+		}
+	}
+	// a freshly extracted helper writes on behalf of its callers
+	for fn := range out {
+		if _, isH := w.inlSites[fn]; isH {
+			delete(out, fn)
+			for _, rt := range w.inlineRoots(fn) {
+				out[rt] = true
+			}
+		}
+	}
+	// a bound-method wrapper (x.m used as a value) writes on behalf of the functions that create it
+	for fn := range out {
+		if fn.Synthetic == "" || fn.Parent() != nil {
+			continue
+		}
+		var users []*ssa.Function
+		for _, u := range w.Funcs {
+			for _, b := range u.Blocks {
+				for _, in := range b.Instrs {
+					if mc, ok := in.(*ssa.MakeClosure); ok && mc.Fn == ssa.Value(fn) {
+						users = append(users, u)
+					}
+				}
+			}
+		}
+		if len(users) > 0 {
+			delete(out, fn)
+			for _, u := range users {
+				out[u] = true
 			}
 		}
 	}
@@ -315,7 +346,7 @@ func (w *World) callEdges(g *FG, prefix string) (tr, fa []Edge) {
 
 // slotAndBump: a fill loop `s[i] = x; i++` writes every element to its own slot.
 func slotAndBump(w *World, fn *ssa.Function, valPrefix string) bool {
-	g := w.FG(fn)
+	g := w.FGI(fn)
 	slot := make([]bool, len(g.ins))
 	bump := make([]bool, len(g.ins))
 	var idx ssa.Value
@@ -378,7 +409,7 @@ func checkC18(w *World, r *Report) {
 	except := w.Method("cluster", "MemberSet", "Except")
 	// R1
 	{
-		g := w.FG(a.handleMembers)
+		g := w.FGI(a.handleMembers)
 		site := w.fnPos(a.handleMembers)
 		joined := "call:(*cluster.MemberSet).Except(call:cluster.NewMemberSet(P1),call:(*cluster.MemberSet).Slice(P0.members))"
 		left := "call:(*cluster.MemberSet).Except(P0.members,P1)"
@@ -429,7 +460,7 @@ func checkC18(w *World, r *Report) {
 	w.checkRow(r, row{rule: "C18.R2", fn: a.leave, callee: w.evBroadcast("cluster", "MemberLeaveEvent"), name: "BroadcastEvent(MemberLeaveEvent)", args: []string{"P0.cluster.engine", "lit:MemberLeaveEvent{Member=P1}"}, why: "No (or a wrong, or a second) MemberLeaveEvent for a leaving member."})
 	{
 		// join extends kinds from m.Kinds
-		g := w.FG(a.join)
+		g := w.FGI(a.join)
 		ok := false
 		for _, in := range g.ins {
 			if mu, isM := in.(*ssa.MapUpdate); isM && w.pathOf(mu.Map) == "P0.kinds" && strings.HasPrefix(w.pathOf(mu.Key), "P1.Kinds[") && w.pathOf(mu.Value) == "K:true" {
@@ -458,7 +489,7 @@ func checkC18(w *World, r *Report) {
 			goto r3
 		}
 		{
-		lg := w.FG(a.leave)
+		lg := w.FGI(a.leave)
 		R := w.Nodes(lg, EvCall("Remove", rem), true)
 		B := w.Nodes(lg, EvCall("rebuild", a.rebuild), true)
 		okR := anyOf(R) && anyOf(B)
@@ -474,7 +505,7 @@ func checkC18(w *World, r *Report) {
 		}
 		r.Check(okR, "C18.R2", fname(a.leave)+":rebuild-after-remove", "kinds are rebuilt after the member was removed", w.fnPos(a.leave), "HasKind keeps reporting kinds that only the departed member offered (rebuild missing or done before the removal)")
 		// rebuild: clear + re-add from every remaining member
-		rg := w.FG(a.rebuild)
+		rg := w.FGI(a.rebuild)
 		clr := false
 		for _, in := range rg.ins {
 			if c := callOf(in); c != nil {
@@ -493,8 +524,8 @@ func checkC18(w *World, r *Report) {
 				cf := mc.Fn.(*ssa.Function)
 				upd := false
 				allTrue := true
-				for _, b := range cf.Blocks {
-					for _, in := range b.Instrs {
+				for _, in := range w.insOf(cf) {
+					{
 						if mu, isU := in.(*ssa.MapUpdate); isU && strings.HasSuffix(w.pathOf(mu.Map), ".kinds") && strings.HasPrefix(w.pathOf(mu.Key), "P0.Kinds[") {
 							upd = true
 						}
@@ -526,7 +557,7 @@ func checkC18(w *World, r *Report) {
 			// the closure adds on the absent edge
 			for _, ci := range w.callsIn(a.rebuild, EvCall("ForEach", fe)) {
 				if mc, isM := ci.Common().Args[1].(*ssa.MakeClosure); isM {
-					cg := w.FG(mc.Fn.(*ssa.Function))
+					cg := w.FGI(mc.Fn.(*ssa.Function))
 					upd := make([]bool, len(cg.ins))
 					for i, in := range cg.ins {
 						if _, isU := in.(*ssa.MapUpdate); isU {
@@ -548,8 +579,8 @@ r3:
 	{
 		mw := map[*ssa.Function]bool{}
 		for _, fn := range w.MethodsOf("cluster", "Agent") {
-			for _, b := range fn.Blocks {
-				for _, in := range b.Instrs {
+			for _, in := range w.insOf(fn) {
+				{
 					if c := callOf(in); c != nil && c.StaticCallee() != nil && isMethodOf(c.StaticCallee(), a.msT) && len(c.Args) > 0 && strings.HasSuffix(w.pathOf(c.Args[0]), ".members") {
 						switch c.StaticCallee().Name() {
 						case "Add", "Remove", "RemoveByHost":
@@ -583,8 +614,8 @@ r3:
 		chk := func(fn *ssa.Function, what string, pred func(in ssa.Instruction) bool) {
 			ok := false
 			if fn != nil {
-				for _, b := range fn.Blocks {
-					for _, in := range b.Instrs {
+				for _, in := range w.insOf(fn) {
+					{
 						if pred(in) {
 							ok = true
 						}
@@ -616,7 +647,7 @@ r3:
 		})
 		// Except
 		if except != nil {
-			g := w.FG(except)
+			g := w.FGI(except)
 			var fill *ssa.MapUpdate
 			var test *ssa.Lookup
 			var app *ssa.Call
@@ -646,7 +677,7 @@ r3:
 					return false, false
 				})
 				switch {
-				case !strings.HasPrefix(fk, "P1[") || !strings.HasSuffix(fk, ".ID") || fill.Map != test.X:
+				case !strings.HasPrefix(fk, "P1[") || !strings.HasSuffix(fk, ".ID") || w.resolve(fill.Map) != w.resolve(test.X):
 					ok, detail = false, "the argument is not indexed by Member.ID: "+fk
 				case !strings.HasPrefix(tk, "next(range(P0.members))") || !strings.HasSuffix(tk, ".ID"):
 					ok, detail = false, "the receiver's members are not tested by Member.ID: "+tk
@@ -672,8 +703,8 @@ r3:
 		sl := mk("Slice")
 		okS := false
 		if sl != nil {
-			for _, b := range sl.Blocks {
-				for _, in := range b.Instrs {
+			for _, in := range w.insOf(sl) {
+				{
 					if st, ok := in.(*ssa.Store); ok && strings.HasPrefix(w.pathOf(st.Val), "next(range(P0.members))#2") {
 						if _, isI := st.Addr.(*ssa.IndexAddr); isI {
 							okS = true
@@ -688,11 +719,29 @@ r3:
 		if okS {
 			okS = slotAndBump(w, sl, "next(range(P0.members))#2")
 		}
+		if !okS && sl != nil {
+			// the append form: an empty slice gets every member appended, once per iteration
+			sg := w.FGI(sl)
+			A := make([]bool, len(sg.ins))
+			for i, in := range sg.ins {
+				if c, isC := in.(*ssa.Call); isC {
+					if vals := w.appended(c); len(vals) == 1 && w.pathOf(vals[0]) == "next(range(P0.members))#2" {
+						A[i] = true
+					}
+				}
+			}
+			okS = w.rangeLoopEvery(sg, "P0.members", A) && len(sg.returns) > 0
+			for _, x := range sg.returns {
+				if rs := sg.ins[x].(*ssa.Return).Results; len(rs) != 1 || !w.accumulates(sg, rs[0], A) {
+					okS = false
+				}
+			}
+		}
 		r.Check(okS, "C18.R4", "MemberSet.Slice", "Slice returns every member of the set", w.fnPos(sl), "Slice does not list exactly the members map")
 	}
 	// R5
 	{
-		g := w.FG(a.recv)
+		g := w.FGI(a.recv)
 		respond := w.Method("actor", "Context", "Respond")
 		gm := w.caseEdges(g, "cluster.getMembers")
 		gk := w.caseEdges(g, "cluster.getKinds")
@@ -785,7 +834,7 @@ func checkC19(w *World, r *Report) {
 	req := w.Method("actor", "Engine", "Request")
 	// R1
 	{
-		g := w.FG(a.activate)
+		g := w.FGI(a.activate)
 		site := w.fnPos(a.activate)
 		known, _ := g.CondEdges(func(v ssa.Value) (bool, bool) {
 			p := w.pathOf(v)
@@ -949,7 +998,7 @@ func checkC19(w *World, r *Report) {
 			}
 		}
 		if fbk := w.Method("cluster", "MemberSet", "FilterByKind"); fbk != nil {
-			fg := w.FG(fbk)
+			fg := w.FGI(fbk)
 			has, _ := w.callEdges(fg, "call:(*cluster.Member).HasKind(next(range(P0.members))#2,P1)")
 			app := make([]bool, len(fg.ins))
 			okF := false
@@ -969,7 +1018,7 @@ func checkC19(w *World, r *Report) {
 			hk := w.Method("cluster", "Member", "HasKind")
 			okH := false
 			if hk != nil {
-				hg := w.FG(hk)
+				hg := w.FGI(hk)
 				eq, _ := hg.CondEdges(func(v ssa.Value) (bool, bool) {
 					b, isB := v.(*ssa.BinOp)
 					return true, isB && b.Op == token.EQL && strings.HasPrefix(w.pathOf(b.X), "P0.Kinds[") && w.pathOf(b.Y) == "P1"
@@ -1003,15 +1052,15 @@ func checkC19(w *World, r *Report) {
 		r.Check(len(wr) == 0, "C19.R2", "Agent.activated:writers", "only addActivated and removeActivated write the activation table", w.fnPos(a.addAct), fmt.Sprintf("other writers: %v", fnNames(wr)))
 		// addActivated: activated[pid.ID] = pid ; removeActivated: delete(activated, pid.ID)
 		okA, okR := false, false
-		for _, b := range a.addAct.Blocks {
-			for _, in := range b.Instrs {
+		for _, in := range w.insOf(a.addAct) {
+			{
 				if mu, ok := in.(*ssa.MapUpdate); ok && w.pathOf(mu.Map) == "P0.activated" && w.pathOf(mu.Key) == "P1.ID" && w.pathOf(mu.Value) == "P1" {
 					okA = true
 				}
 			}
 		}
-		for _, b := range a.remAct.Blocks {
-			for _, in := range b.Instrs {
+		for _, in := range w.insOf(a.remAct) {
+			{
 				if c, ok := in.(*ssa.Call); ok {
 					if args, isD := isBuiltinCall(c, "delete"); isD && w.pathOf(args[0]) == "P0.activated" && w.pathOf(args[1]) == "P1.ID" {
 						okR = true
@@ -1020,7 +1069,7 @@ func checkC19(w *World, r *Report) {
 			}
 		}
 		if okA {
-			ag := w.FG(a.addAct)
+			ag := w.FGI(a.addAct)
 			upd := make([]bool, len(ag.ins))
 			for i, in := range ag.ins {
 				if _, isU := in.(*ssa.MapUpdate); isU {
@@ -1035,8 +1084,8 @@ func checkC19(w *World, r *Report) {
 			}
 		}
 		r.Check(okA, "C19.R2", fname(a.addAct)+":key", "addActivated records the PID under pid.ID", w.fnPos(a.addAct), "activations are not recorded under the PID's id")
-		r.Check(okR && w.FG(a.remAct).AfterEntry(func() []bool {
-			g := w.FG(a.remAct)
+		r.Check(okR && w.FGI(a.remAct).AfterEntry(func() []bool {
+			g := w.FGI(a.remAct)
 			out := make([]bool, len(g.ins))
 			for i, in := range g.ins {
 				if c, ok := in.(*ssa.Call); ok {
@@ -1053,14 +1102,14 @@ func checkC19(w *World, r *Report) {
 		w.checkRow(r, row{rule: "C19.R2", fn: a.hTopology, callee: EvCall("add", a.addAct), name: "addActivated", args: []string{"P0", "re:P1\\.Actors\\[.*\\]\\.PID"}, loop: true,
 			excuse: func(g *FG) []Edge { return allEdges(g) }, why: "A topology sent to a late joiner is not recorded."})
 		// leave handler purges by host
-		lg := w.FG(a.leave)
+		lg := w.FGI(a.leave)
 		okL := false
 		for _, ci := range w.callsIn(a.leave, EvCall("rem", a.remAct)) {
 			n := lg.idx[ci.(ssa.Instruction)]
 			arg := w.pathOf(ci.Common().Args[1])
 			for _, f := range lg.FactsAt(n) {
-				p := w.pathOf(f.Cond)
-				if f.Val && (p == "("+arg+".Address==P1.Host)" || p == "(P1.Host=="+arg+".Address)") && strings.HasPrefix(arg, "next(range(P0.activated))") {
+				p := w.factPos(f)
+				if (p == "("+arg+".Address==P1.Host)" || p == "(P1.Host=="+arg+".Address)") && strings.HasPrefix(arg, "next(range(P0.activated))") {
 					okL = true
 				}
 			}
@@ -1091,7 +1140,7 @@ func checkC19(w *World, r *Report) {
 	}
 	// R3
 	{
-		g := w.FG(a.join)
+		g := w.FGI(a.join)
 		ok := false
 		detail := "no ActorTopology is sent to the joining member"
 		for _, ci := range w.callsIn(a.join, EvCall("Send", w.Method("actor", "Engine", "Send"))) {
@@ -1115,7 +1164,7 @@ func checkC19(w *World, r *Report) {
 					return
 				}
 				seen[v] = true
-				switch x := v.(type) {
+				switch x := w.resolve(v).(type) {
 				case *ssa.Phi:
 					for _, e := range x.Edges {
 						walk(e)
@@ -1165,7 +1214,7 @@ func checkC19(w *World, r *Report) {
 	}
 	// R4 exhaustiveness
 	{
-		g := w.FG(a.recv)
+		g := w.FGI(a.recv)
 		type cs struct {
 			typ string
 			h   *ssa.Function
@@ -1239,7 +1288,7 @@ func checkC19(w *World, r *Report) {
 			for _, ci := range w.callsIn(a.bcast, EvCall("ForEach", fe)) {
 				if mc, isM := ci.Common().Args[1].(*ssa.MakeClosure); isM && w.pathOf(ci.Common().Args[0]) == "P0.members" {
 					cf := mc.Fn.(*ssa.Function)
-					cg := w.FG(cf)
+					cg := w.FGI(cf)
 					S := make([]bool, len(cg.ins))
 					for i, in := range cg.ins {
 						if c := callOf(in); c != nil && c.StaticCallee() == w.Method("actor", "Engine", "Send") {
@@ -1256,7 +1305,24 @@ func checkC19(w *World, r *Report) {
 					}
 				}
 			}
-			fg := w.FG(fe)
+			if !ok {
+				// the direct form: a range loop over the set's map
+				bg := w.FGI(a.bcast)
+				S := make([]bool, len(bg.ins))
+				for i, in := range bg.ins {
+					if c := callOf(in); c != nil && c.StaticCallee() == w.Method("actor", "Engine", "Send") {
+						if _, isCall := in.(*ssa.Call); isCall && w.pathOf(c.Args[1]) == "call:(*cluster.Member).PID(next(range(P0.members.members))#2)" && w.pathOf(c.Args[2]) == "P1" {
+							S[i] = true
+						}
+					}
+				}
+				if w.rangeLoopEvery(bg, "P0.members.members", S) {
+					r.OK("C19.R4", fname(a.bcast)+":every-member", "bcast sends the message once to the agent PID of every member (the callback never stops the iteration)", w.fnPos(a.bcast))
+					goto bcastDone
+				}
+			}
+			{
+			fg := w.FGI(fe)
 			// ForEach itself visits every member while the callback returns true
 			okF := false
 			for _, in := range fg.ins {
@@ -1286,6 +1352,8 @@ func checkC19(w *World, r *Report) {
 			}
 			r.Check(ok && okF, "C19.R4", fname(a.bcast)+":every-member", "bcast sends the message once to the agent PID of every member (the callback never stops the iteration)", w.fnPos(a.bcast),
 				"a notification does not reach all members: their activation tables diverge")
+			}
+		bcastDone:
 		}
 		// Member.PID / Cluster.Start agree on the agent's id
 		{
@@ -1306,8 +1374,8 @@ func checkC19(w *World, r *Report) {
 	{
 		var bad []string
 		for _, fn := range w.MethodsOf("cluster", "Agent") {
-			for _, b := range fn.Blocks {
-				for _, in := range b.Instrs {
+			for _, in := range w.insOf(fn) {
+				{
 					if g, isGo := in.(*ssa.Go); isGo {
 						bad = append(bad, fname(fn)+" at "+w.pos(g.Pos()))
 					}
@@ -1331,8 +1399,8 @@ func checkC19(w *World, r *Report) {
 				// the answer returned is the agent's reply, type-asserted with comma-ok; errors yield nil
 				ok := true
 				n := 0
-				for _, b := range fn.Blocks {
-					for _, in := range b.Instrs {
+				for _, in := range w.insOf(fn) {
+					{
 						if ret, isR := in.(*ssa.Return); isR {
 							p := w.pathOf(ret.Results[0])
 							if p != "K:nil" {
@@ -1361,7 +1429,7 @@ func checkC19(w *World, r *Report) {
 	}
 	// getActive by kind: the kind of an entry is the first segment of its id
 	{
-		g := w.FG(a.hGetActive)
+		g := w.FGI(a.hGetActive)
 		ok := false
 		detail := "no comparison of msg.kind with the first \"/\"-separated segment of the table key (unrecognised idiom)"
 		for _, in := range g.ins {
@@ -1391,7 +1459,7 @@ func checkC19(w *World, r *Report) {
 	}
 	// R5
 	{
-		g := w.FG(a.hActReq)
+		g := w.FGI(a.hActReq)
 		local, notLocal := g.CondEdges(func(v ssa.Value) (bool, bool) {
 			p := w.pathOf(v)
 			return true, strings.HasPrefix(p, "call:(*cluster.Agent).hasKindLocal(P0,P1.Kind)") || p == "P0.localKinds[P1.Kind]#1"
@@ -1414,7 +1482,7 @@ func checkC19(w *World, r *Report) {
 		ok2 := false
 		for _, ci := range w.callsIn(a.hActReq, EvCall("Spawn", spawn)) {
 			c := ci.Common()
-			if w.pathOf(c.Args[1]) == "P0.localKinds[P1.Kind].producer" && w.pathOf(c.Args[2]) == "P1.Kind" {
+			if pp := w.pathOf(c.Args[1]); (pp == "P0.localKinds[P1.Kind].producer" || pp == "P0.localKinds[P1.Kind]#0.producer") && w.pathOf(c.Args[2]) == "P1.Kind" {
 				// WithID(msg.ID)
 				for _, in := range g.ins {
 					if cc := callOf(in); cc != nil && cc.StaticCallee() != nil && cc.StaticCallee().Name() == "WithID" && w.pathOf(cc.Args[0]) == "P1.ID" {
@@ -1501,7 +1569,7 @@ func checkC20(w *World, r *Report) {
 			if !w.isLib(fn) || fnPkgPath(fn) != modPath+"/cluster" || strings.Contains(w.Fset.Position(fn.Pos()).Filename, ".pb.go") {
 				continue
 			}
-			g := w.FG(fn)
+			g := w.FGI(fn)
 			for i, in := range g.ins {
 				c, ok := in.(*ssa.Call)
 				if !ok || c.Call.StaticCallee() == nil || !w.inMod[c.Call.StaticCallee()] || c.Referrers() == nil {
@@ -1550,7 +1618,7 @@ func checkC20(w *World, r *Report) {
 			r.Unknown("C20.R1", "nil-results", "uses of may-return-nil functions in package cluster", "-", "none found (GetByHost no longer returns nil?)")
 		}
 	}
-	g := w.FG(recv)
+	g := w.FGI(recv)
 	site := w.fnPos(recv)
 	eSend := w.Method("actor", "Engine", "Send")
 	// R2
@@ -1625,7 +1693,7 @@ func checkC20(w *World, r *Report) {
 	}
 	// R3
 	{
-		ag := w.FG(addM)
+		ag := w.FGI(addM)
 		r.Check(ag.AfterEntry(w.Nodes(ag, EvCall("report", sendAgent), true)), "C20.R3", fname(addM)+":reports", "adding members always ends with reporting the list to the agent", w.fnPos(addM), "the agent is not told about new members")
 		okAdd := false
 		for _, ci := range w.callsIn(addM, EvCall("Add", msAdd)) {
@@ -1676,7 +1744,7 @@ func checkC20(w *World, r *Report) {
 			}
 		}
 		r.Check(okAdd, "C20.R3", fname(addM)+":adds-each", "every listed member is added to the provider's member set", w.fnPos(addM), "listed members are not added")
-		rg := w.FG(remM)
+		rg := w.FGI(remM)
 		r.Check(rg.AfterEntry(w.Nodes(rg, EvCall("report", sendAgent), true)), "C20.R3", fname(remM)+":reports", "removing a member always ends with reporting the list to the agent", w.fnPos(remM), "the agent is not told that a member is gone")
 		okRem := false
 		for _, ci := range w.callsIn(remM, EvCall("Remove", msRem)) {
@@ -1700,7 +1768,7 @@ func checkC20(w *World, r *Report) {
 			}
 		}
 		if gbh := w.Method("cluster", "MemberSet", "GetByHost"); gbh != nil {
-			hg := w.FG(gbh)
+			hg := w.FGI(gbh)
 			okG := false
 			for _, x := range hg.returns {
 				v := hg.ins[x].(*ssa.Return).Results[0]
@@ -1753,7 +1821,7 @@ func checkC20(w *World, r *Report) {
 	}
 	// R4
 	{
-		cg := w.FG(evChild)
+		cg := w.FGI(evChild)
 		ok := false
 		for _, ci := range w.callsIn(evChild, EvCall("Send", w.Method("actor", "Context", "Send"))) {
 			c := ci.Common()
@@ -1784,7 +1852,7 @@ func checkC20(w *World, r *Report) {
 		if okSub {
 			okSub = false
 			for _, fn := range w.MethodsOf("cluster", "SelfManaged") {
-				g2 := w.FG(fn)
+				g2 := w.FGI(fn)
 				asg := make([]bool, len(g2.ins))
 				for i, in := range g2.ins {
 					if st, isSt := in.(*ssa.Store); isSt {
